@@ -5,6 +5,7 @@ package font
 import (
 	"encoding/binary"
 	"errors"
+	"sort"
 	"unicode"
 
 	"github.com/go-text/typesetting/font/opentype/tables"
@@ -263,7 +264,34 @@ func newCmap4(cm tables.CmapSubtable4) (cmap4, error) {
 		}
 		out[i] = entry
 	}
-	return out, nil
+	return out.sanitize(), nil
+}
+
+// sanitize enforces what Lookup, Iter and RuneRanges assume : the segments
+// are not empty, sorted and pairwise disjoint.
+// The set of runes covered is preserved : a rune covered by several segments is
+// mapped by the one with the lowest start, the other ones start past it.
+func (s cmap4) sanitize() cmap4 {
+	byStart := func(i, j int) bool { return s[i].start < s[j].start }
+	if !sort.SliceIsSorted(s, byStart) {
+		sort.SliceStable(s, byStart)
+	}
+	out := s[:0]
+	next := 0 // the first rune not covered yet
+	for _, entry := range s {
+		if entry.end < entry.start || int(entry.end) < next {
+			continue
+		}
+		if int(entry.start) < next {
+			if len(entry.indexes) != 0 {
+				entry.indexes = entry.indexes[next-int(entry.start):]
+			}
+			entry.start = uint16(next)
+		}
+		out = append(out, entry)
+		next = int(entry.end) + 1
+	}
+	return out
 }
 
 type cmap4Iter struct {
@@ -385,22 +413,46 @@ func (s cmap6or10) Lookup(r rune) (GID, bool) {
 
 type cmap12 []tables.SequentialMapGroup
 
-func newCmap12(cm tables.CmapSubtable12) cmap12 { return sanitizeGroups(cm.Groups) }
+func newCmap12(cm tables.CmapSubtable12) cmap12 { return sanitizeGroups(cm.Groups, true) }
 
-// sanitizeGroups returns a copy of [groups] restricted to the Unicode
-// code space : a code above U+10FFFF is not a rune.
-func sanitizeGroups(groups []tables.SequentialMapGroup) []tables.SequentialMapGroup {
+// sanitizeGroups returns a copy of [groups] enforcing what Lookup, Iter
+// and RuneRanges assume : the groups are restricted to the Unicode code space
+// (a code above U+10FFFF is not a rune), not empty, sorted and pairwise disjoint.
+// The set of runes covered is preserved : a rune covered by several groups is
+// mapped by the one with the lowest start, the other ones start past it.
+// [sequential] is true for format 12, where the glyph follows the rune.
+func sanitizeGroups(groups []tables.SequentialMapGroup, sequential bool) []tables.SequentialMapGroup {
 	out := make([]tables.SequentialMapGroup, 0, len(groups))
 	for _, g := range groups {
-		if g.StartCharCode > unicode.MaxRune {
-			continue
-		}
 		if g.EndCharCode > unicode.MaxRune {
 			g.EndCharCode = unicode.MaxRune
 		}
+		if g.EndCharCode < g.StartCharCode {
+			continue
+		}
 		out = append(out, g)
 	}
-	return out
+	byStart := func(i, j int) bool { return out[i].StartCharCode < out[j].StartCharCode }
+	if !sort.SliceIsSorted(out, byStart) {
+		sort.SliceStable(out, byStart)
+	}
+	n := 0
+	next := uint32(0) // the first rune not covered yet
+	for _, g := range out {
+		if g.EndCharCode < next {
+			continue
+		}
+		if g.StartCharCode < next {
+			if sequential {
+				g.StartGlyphID += next - g.StartCharCode
+			}
+			g.StartCharCode = next
+		}
+		out[n] = g
+		n++
+		next = g.EndCharCode + 1
+	}
+	return out[:n]
 }
 
 type cmap12Iter struct {
@@ -449,7 +501,7 @@ func (s cmap12) Lookup(r rune) (GID, bool) {
 
 type cmap13 []tables.SequentialMapGroup
 
-func newCmap13(cm tables.CmapSubtable13) cmap13 { return sanitizeGroups(cm.Groups) }
+func newCmap13(cm tables.CmapSubtable13) cmap13 { return sanitizeGroups(cm.Groups, false) }
 
 type cmap13Iter struct {
 	data cmap13
